@@ -609,6 +609,24 @@ fn gmask(r: &mut Rng, n: usize) -> (Vec<Group>, String) {
     (vec![gs(&lay), gs(&vals), gbools(valid)], format!("{tag}o{}", lay[0] % 8))
 }
 
+/// A predicate that may be STRICTLY SHORTER than the `n` rows it is applied to (filter, filter_record_batch and
+/// BatchCoalescer::push_batch_with_filter accept predicate.len() <= rows; the rows beyond the predicate's end are
+/// not selected). About one case in five is short: half of those all-true without nulls (the "selects everything"
+/// fast paths must compare against the number of ROWS, not the predicate length), the rest any mask class
+/// (mixed, with nulls, empty). Longer predicates are an error in arrow-select and are not generated.
+fn gmask_upto(r: &mut Rng, n: usize) -> (Vec<Group>, String) {
+    if n == 0 || !r.chance(1, 5) { return gmask(r, n); }
+    let m = match r.below(4) { 0 => n - 1, 1 => 0, 2 => n / 2, _ => r.below(n) };
+    if r.bool() {
+        let mut lay = gen_layout(r);
+        if r.bool() { lay[3] = 1; } // often no validity buffer at all
+        (vec![gs(&lay), gs(&vec![1i64; m]), gbools(vec![true; m])], format!("short-all o{}", lay[0] % 8))
+    } else {
+        let (g, t) = gmask(r, m);
+        (g, format!("short-{t}"))
+    }
+}
+
 /// KNOWN-FINDING candidate: zip / merge / ScalarZipper with two Utf8View scalars (ByteViewScalarImpl::
 /// get_views_for_non_nullable, arrow-select/src/zip.rs): when the falsy scalar is an *inlined* value (<= 12 bytes)
 /// whose array nevertheless owns data buffers (e.g. a one-row slice of an array that also holds long strings),
@@ -649,7 +667,7 @@ pub fn generate(tier: &str, r: &mut Rng, emit: &mut dyn FnMut(Case)) {
         for _ in 0..30 * scale {
             let n = gen_len(r, true);
             let mode = *r.pick(&[0i64, 0, 1, 2, 2, 3]);
-            let (c, ct) = gcol(r, n, ty, w); let (m, mt) = gmask(r, n);
+            let (c, ct) = gcol(r, n, ty, w); let (m, mt) = gmask_upto(r, n);
             let mut args = vec![gs(&[ty, w, mode])]; args.extend(c); args.extend(m);
             emit(Case::new("c03.filter", args, &["c03.filter", "c03.filter.slices", "c03.filter.indices", "c03.filter.spec"],
                 format!("filter {} m{mode} {} {ct} {mt}", tname(ty, w), lclass(n))));
@@ -820,7 +838,7 @@ pub fn generate(tier: &str, r: &mut Rng, emit: &mut dyn FnMut(Case)) {
             let lay = gen_layout(r);
             args.push(gs(&[kind as i64, lay[0], lay[1], lay[2], lay[3]])); args.push(gs(&ids)); args.push(gbools(valid));
             if kind == 1 {
-                let (m, _) = gmask(r, n); args.extend(m);
+                let (m, _) = gmask_upto(r, n); args.extend(m);
             } else if kind == 2 {
                 let k = if n == 0 { 0 } else { r.below(maxrows + 1) };
                 // (same KNOWN-FINDING candidate as in take: no null indices for RunEndEncoded / dense Union columns)
